@@ -113,16 +113,29 @@ def main(argv=None):
   ctx = multiprocessing.get_context('fork')
   nworkers = max(1, min(args.workers, len(jobs)))
   pool = ctx.Pool(nworkers, maxtasksperchild=getattr(mod, 'MAX_TASKS_PER_CHILD', None))
+  budget = float(os.environ.get('VERIF_MAX_WALL_S') or (900 if args.tier == 'quick' else 6 * 3600))
+  timed_out = False
   try:
-    for status, name, payload in pool.imap_unordered(_run_job, [(modname, j) for j in jobs]):
+    it = pool.imap_unordered(_run_job, [(modname, j) for j in jobs])
+    for _ in range(len(jobs)):
+      try:
+        status, name, payload = it.next(timeout=max(1.0, budget - (time.time() - t0)))
+      except multiprocessing.TimeoutError:
+        timed_out = True
+        break
       if status == 'ok':
         total.merge(payload)
       else:
         errors.append((name, payload))
-    pool.close()
-    pool.join()
+    if not timed_out:
+      pool.close()
+      pool.join()
   finally:
     pool.terminate()
+  if timed_out:
+    # A wall-clock budget hit is "inconclusive" (code under test hangs or the machine is overloaded), never a violation.
+    print('HARNESS-ERROR property=%s inconclusive: wall-clock budget of %.0fs exceeded (a job hangs?)' % (pid, budget))
+    return 2
   wall = time.time() - t0
 
   viols = [v for s, v in sorted(total.violations.items()) if s not in known]
